@@ -12,6 +12,8 @@ from natives_fs import PStr, text_of
 
 # the scripted tree: (path, depth, is_dir); names with blanks, quotes, a leading dash, braces
 TREE = [("r", 0, True), ("r/a b", 1, False), ("r/d", 1, True), ("r/d/-n", 2, False), ("r/e'{}\udce9", 1, False)]     # the last name ends in a byte that is not UTF-8 (0xE9, carried as a lone surrogate)
+# for -mindepth 2: two sibling directories with entries of their own - consecutive entries of equal depth with different parents, the directories between them not yielded
+TREE_MIN = [("r", 0, True), ("r/d", 1, True), ("r/d/-n", 2, False), ("r/d/x y", 2, False), ("r/e", 1, True), ("r/e/z", 2, False), ("r/f", 1, False)]
 TEMPLATES = ["{}", "a{}", "{}{}", "x", "-n", "{} {}", ""]
 
 
@@ -53,6 +55,11 @@ def make_natives(state, sym):
         return Struct("WalkIter", [])
 
     def wd_next(m, args):
+        mind = state["wd"].get("min_depth", 0)
+        if not isinstance(mind, int):
+            raise Unsupported("symbolic min_depth")
+        while state["pos"] < len(state["order"]) and state["order"][state["pos"]][1] < mind:
+            state["pos"] += 1                      # walkdir descends into but does not yield what lies above min_depth
         i = state["pos"]
         if i >= len(state["order"]):
             return NONE()
@@ -71,6 +78,10 @@ def make_natives(state, sym):
         state["skips"].append(p)
         return UNIT
 
+    def parse_usize(m, args):
+        t = text_of(m, args[0])
+        return Ok(int(t)) if t.isdigit() and t.isascii() else Err(Opaque("ParseIntError"))
+    nat["str::parse"] = parse_usize
     nat.update({"WalkDir::new": wd_new, "WalkDir::contents_first": wd_opt("contents_first"), "WalkDir::max_depth": wd_opt("max_depth"),
                 "WalkDir::min_depth": wd_opt("min_depth"), "WalkDir::same_file_system": wd_opt("same_file_system"),
                 "WalkDir::follow_links": wd_opt("follow_links"), "WalkDir::follow_root_links": wd_opt("follow_root_links"),
@@ -167,7 +178,18 @@ def run_one(m, funcs, index, enums, expr_tokens, depth_sym, state, walks=1):
 
 
 def explore(kind, funcs, index, enums):
-    """kind: 'multi', 'multi_dir', 'multi_quit', 'multi_two', 'single', 'single_dir'"""
+    global TREE
+    if kind == "multi_dir_min":
+        saved, TREE = TREE, TREE_MIN
+        try:
+            return _explore(kind, funcs, index, enums)
+        finally:
+            TREE = saved
+    return _explore(kind, funcs, index, enums)
+
+
+def _explore(kind, funcs, index, enums):
+    """kind: 'multi', 'multi_dir', 'multi_dir_min' (-mindepth 2 -execdir ... {} +), 'multi_quit', 'multi_two', 'single', 'single_dir'"""
     res = {"kind": kind, "paths": 0, "violations": [], "unsupported": {}, "samples": [], "checks": 0}
     nent = len(TREE)
     sym = {"fits": [z3.Bool("fits%d" % i) for i in range(2 * nent)], "out": [z3.Int("out%d" % i) for i in range(2 * nent + 2)]}
@@ -187,6 +209,8 @@ def explore(kind, funcs, index, enums):
             expr = ["-exec", "cmd", "{}", "+", "-name", "d", "-quit"] if False else ["-exec", "cmd", "{}", "+", "-quit"]
         if kind == "multi_roots_dir":
             expr = ["-execdir", "cmd", "fixed", "{}", "+"]
+        if kind == "multi_dir_min":
+            expr = ["-mindepth", "2", "-execdir", "cmd", "fixed", "{}", "+"]
     else:
         expr = ["-execdir" if kind == "single_dir" else "-exec", "cmd", RStr(sym=t1, vocab=TEMPLATES), RStr(sym=t2, vocab=TEMPLATES), ";", "-print"]
     t0 = time.time()
@@ -195,7 +219,7 @@ def explore(kind, funcs, index, enums):
         state.update(wd={}, order=[], pos=0, yielded=[], skips=[], commands=[], ntry=0, verdicts=[], runs=[], depth_first=False, at_walk_end=[])
         state["all_fit"] = kind in ("multi_two", "multi_roots", "multi_roots_dir")
         try:
-            out = run_one(m, funcs, index, enums, expr, depth if kind in ("multi", "multi_dir", "single") else None, state, walks=2 if kind.startswith("multi_roots") else 1)
+            out = run_one(m, funcs, index, enums, expr, depth if kind in ("multi", "multi_dir", "multi_dir_min", "single") else None, state, walks=2 if kind.startswith("multi_roots") else 1)
         except RustPanic as e:
             res["violations"].append({"what": "panic: " + str(e)[:120]})
             res["paths"] += 1
@@ -223,7 +247,7 @@ def explore(kind, funcs, index, enums):
 
 def check_multi(kind, out, state, m):
     bad = []
-    execdir = kind == "multi_dir"
+    execdir = kind in ("multi_dir", "multi_dir_min")
     runs, verdicts = state["runs"], state["verdicts"]
     visited = state["yielded"]
     if kind == "multi_quit":
@@ -354,7 +378,7 @@ def check_single(kind, out, state, m, t1, t2):
     return bad
 
 
-KINDS = ["multi", "multi_dir", "multi_quit", "multi_two", "multi_roots", "multi_roots_dir", "single", "single_dir"]
+KINDS = ["multi", "multi_dir", "multi_dir_min", "multi_quit", "multi_two", "multi_roots", "multi_roots_dir", "single", "single_dir"]
 
 if __name__ == "__main__":
     text = open(sys.argv[2]).read() if len(sys.argv) > 2 else None
